@@ -119,3 +119,23 @@ def years(lo=-2000.0, hi=4000.0):
 
 def jde_from_year(y):
     return 2451545.0 + (y - 2000.0) * 365.25
+
+
+# ---- Angle objects whose comparison tolerance is not the default
+
+ANGLE_TOLS = [None, None, None, 0.0, 1e-14, 1e-6, 1e-3, 0.01]
+
+
+def angle_with_tolerance(x, salt=0):
+    """Angle(x) whose comparison tolerance (set_tolerance, a documented attribute that takes no
+    part in the value) is varied deterministically with x: default for three cases in eight,
+    otherwise one of {0, 1e-14, 1e-6, 1e-3, 0.01}, for odd picks carried through the copy
+    constructor.  Nothing that is a function of the *value* may depend on it."""
+    from pymeeus.Angle import Angle
+    a = Angle(x)
+    k = (int(abs(x) * 7919.0) + salt) % len(ANGLE_TOLS)
+    if ANGLE_TOLS[k] is not None:
+        a.set_tolerance(ANGLE_TOLS[k])
+        if k % 2:
+            a = Angle(a)
+    return a
